@@ -210,7 +210,7 @@ def compile_many(jobs):
         return [f.result() for f in futs]
 
 
-def run_replayer_chunks(exe, lines, wd, tag, nchunks=NPROC, timeout=900, env=None, args=()):
+def run_replayer_chunks(exe, lines, wd, tag, nchunks=NPROC, timeout=900, env=None, args=(), args_fn=None):
     """Feed program lines ("P <id> ...") to the replayer in parallel chunks.  A crash (library
     assertion, signal) is attributed to the program announced last on stderr ("@id"); the
     remaining programs of the chunk are re-run.  Returns (obs_by_id, crashes) where crashes is
@@ -226,7 +226,8 @@ def run_replayer_chunks(exe, lines, wd, tag, nchunks=NPROC, timeout=900, env=Non
         while todo:
             rounds += 1
             inp = "".join(todo)
-            p = subprocess.run(["timeout", str(timeout), exe] + list(args), input=inp.encode(), stdout=subprocess.PIPE,
+            a = list(args_fn(ci, rounds)) if args_fn else list(args)
+            p = subprocess.run(["timeout", str(timeout), exe] + a, input=inp.encode(), stdout=subprocess.PIPE,
                                stderr=subprocess.PIPE, env=env)
             for ol in p.stdout.decode(errors="replace").splitlines():
                 try:
@@ -366,3 +367,31 @@ class Report:
         with open(os.path.join(EVIDENCE, self.prop + ".json"), "w") as f:
             json.dump(ev, f, indent=1, default=str)
         return 1 if self.violations else 0
+
+
+# --------------------------------------------------------------------- trace validation (V)
+def validate_traces(module, spec, trace_files, name, postcondition="Consumed", timeout=1200, heap="3g"):
+    """run the TLA+ trace monitor `module` over each trace file (one JVM per file, in parallel);
+    returns (complaints, states): complaints = list of dicts printed by the monitor"""
+    from concurrent.futures import ThreadPoolExecutor
+    wd = os.path.join(BUILD, name)
+    os.makedirs(wd, exist_ok=True)
+    cfg = os.path.join(wd, name + ".cfg")
+    write_cfg(cfg, spec=spec, postcondition=postcondition)
+
+    def one(k):
+        tf = trace_files[k]
+        if os.path.getsize(tf) == 0:
+            return [], 0
+        r = run_tlc(module, cfg, "%s_%d" % (name, k), workers=1, timeout=timeout, env={"TRACE": tf}, heap=heap)
+        if r.rc != 0:
+            raise Broken("trace monitor failed on %s: %s" % (tf, r.error_text[-1500:]))
+        comp = list(emitted(r.out_path))
+        os.remove(r.out_path)
+        return comp, r.distinct
+    comps, states = [], 0
+    with ThreadPoolExecutor(max_workers=NPROC) as ex:
+        for c, n in ex.map(one, range(len(trace_files))):
+            comps.extend(c)
+            states += n
+    return comps, states
